@@ -368,6 +368,17 @@ pub fn usage(spec: &CheckSpec) -> ! {
 /// args: what follows the property id on the command line
 pub fn main_for(spec: CheckSpec, args: &[String]) -> i32 {
     crate::ctx::install_panic_hook();
+    // a panic that escapes every scenario guard is a harness error (exit 2, never silent)
+    match crate::ctx::guard(|| main_inner(spec, args)) {
+        Ok(code) => code,
+        Err(p) => {
+            eprintln!("HARNESS-ERROR panic outside a run: {}:{}: {}", p.file, p.line, p.msg);
+            2
+        },
+    }
+}
+
+fn main_inner(spec: CheckSpec, args: &[String]) -> i32 {
     let root = verif_root();
     let seed: u64 = std::env::var("VERIF_SEED").ok().and_then(|v| v.parse().ok()).unwrap_or(1);
     let findings = match load_findings(&root) {
